@@ -32,8 +32,10 @@ RULE = ("operations x 4 hashes x {seed, DH, P256, P384} x SID shapes (SD length 
 PARTIAL = [
     "the checking world of the source-level ties (Flow/World_online.v) gives every create_rpc_connection / bind / request a meaning only with the model's arguments, so the ties imply "
     "that EVERY request the source sends is the model's request at that stage; they do NOT bound the NUMBER of operations: each connection object starts its own stage and the scripted peer "
-    "is replayed, so a source that opened an extra connection or repeated the endpoint-mapper block would satisfy the same statements (third audit: two such mutants). That exactly the "
-    "model's PDUs go out, in number and order, is what the correspondence online.refdc compares (full transcripts against the reference DC, sync and async)",
+    "is replayed, so a source that opened an extra connection or repeated the endpoint-mapper block would satisfy the same statements (third audit: two such mutants). The number is "
+    "constrained SYNTACTICALLY by C17_flow_call_sites (the regenerated bodies have exactly two connection set-ups, two binds, two requests, no loop: Prelude/PySyntax.v) and, on the "
+    "implementation, by the correspondence online.refdc (full transcripts against the reference DC, sync and async); a semantic theorem that the transcript of the source run equals "
+    "the model's transcript is not stated",
     "C17_sync_async_partial (kept for the model-level statement) is now complemented by theorems ABOUT THE SOURCE: the regenerated whole bodies of _sync_get_key and "
     "_async_get_key (flows k_flow_sync_get_key / k_flow_async_get_key) are each tied to get_key_conversation at their flavour for every peer script, provider script and security "
     "context (C17_flow_sync_get_key, C17_flow_async_get_key; precondition: a non-empty auth_protocol), in a CHECKING world (Flow/World_online.v) built from the model's own transcript: "
